@@ -23,6 +23,7 @@ def main():
     ap.add_argument("--props")
     ap.add_argument("--no-confirm", action="store_true")
     ap.add_argument("--tier", default="quick")
+    ap.add_argument("--scratch", help="apply the patch to this scratch worktree of /repo (checks run with --repo) instead of /repo itself")
     a = ap.parse_args()
     wt = a.wt.rstrip("/")
     seed = os.path.join(wt, "seed")
@@ -55,11 +56,12 @@ def main():
     open(os.path.join(dst, "patch.diff"), "w").write(patch)
     shutil.copy(os.path.join(seed, "demo.py"), os.path.join(dst, "demo.py"))
     # run the checks against it
-    st = sh("git -C /repo status --porcelain").stdout.strip()
+    tree = a.scratch or "/repo"
+    st = sh(f"git -C {tree} status --porcelain").stdout.strip()
     if st:
-        print("/repo is not clean; refusing to apply", st)
+        print(f"{tree} is not clean; refusing to apply", st)
         return 3
-    r = sh(f"git -C /repo apply {os.path.join(dst, 'patch.diff')}")
+    r = sh(f"git -C {tree} apply {os.path.join(dst, 'patch.diff')}")
     if r.returncode:
         print("patch does not apply to /repo:", r.stderr)
         return 3
@@ -68,12 +70,12 @@ def main():
         for p in props:
             ev = f"/tmp/scratch/seed_ev_{p}.json"
             os.makedirs("/tmp/scratch", exist_ok=True)
-            rr = sh(f"cd {HERE} && python3-vt vc/run.py --property {p} --tier {a.tier} --evidence {ev}")
+            rr = sh(f"cd {HERE} && python3-vt vc/run.py --property {p} --tier {a.tier} --evidence {ev}" + (f" --repo {a.scratch}" if a.scratch else ""))
             lines = [l for l in rr.stdout.splitlines() if l.startswith(("VIOLATION", "CHECKER-ERROR", "UNDECIDED"))]
             results[p] = {"exit": rr.returncode, "lines": [l[:300] for l in lines[:6]]}
             print(p, "exit", rr.returncode, *[l[:200] for l in lines[:3]], sep="\n   ")
     finally:
-        sh("git -C /repo checkout -- .")
+        sh(f"git -C {tree} checkout -- .")
     out["checks"] = results
     out["detected_by"] = [p for p, r_ in results.items() if r_["exit"] == 1]
     meta_out = dict(meta)
